@@ -5,7 +5,8 @@ META = dict(
     level_note='Trusted: clang AST, cxx2c rendering, CBMC, std::optional model. The maybe-lifting overloads and the view-level glue (broadcast_arrays) are not under contract.',
     trusted_base=['clang 14 front end', 'engine/cxx2c.py', 'cbmc 6.11.0 --dfcc', 'C model of std::optional / std::array (models in generated prelude)'],
     assumptions=['configuration -DNDEBUG, STL enabled; operand kind utl::static_vector<size_t,8> (result kind hybrid_ndarray<size_t,8,1> as chosen by the library)'],
-    not_covered=['compile-time constant / clipped shapes (type level)', 'broadcast_arrays view glue'],
+    explanation='Deciding obligations: impl::broadcast_shape and impl::shape_broadcast_to (real instantiated code) proved equal to the NumPy rule; the algebraic laws (commutative, idempotent, absorbing, scalar-neutral, associative on positive extents) are lemmas over the spec functions for ranks 0..8 and all 64-bit extents. Observation (not a finding under the property as quantified over positive extents): with a zero extent the max rule gives (0,)+(1,) -> (1,) where NumPy gives (0,), and grouping then matters.',
+    not_covered=['index::broadcast_to element mapping (detour through a flat offset; needs L1 compositionally)', 'variadic fold beyond two operands (follows from the two-operand contract + associativity lemma; the maybe-lifting glue is not under contract)', 'compile-time constant / clipped shapes (type level)', 'broadcast_arrays view glue'],
 )
 UNITS = [
     Unit('shape_broadcast_to.bp', 'c06', 'verif_shape_broadcast_to', mode='bp', unwind=10, clause='broadcast_to succeeds iff each source extent equals the target extent or is 1; stretched/prepended axes are flagged free'),
